@@ -384,6 +384,15 @@ impl<'a, 'src: 'a> Compiler<'a, 'src> {
     }
   }
 
+  /// Continue numbering inline cache slots after the ones this module already uses.
+  /// A module is compiled more than once in the repl
+  pub fn with_cache_slots(self, property_slots: usize, invoke_slots: usize) -> Self {
+    self
+      .cache_id_emitter
+      .replace(CacheIdEmitter::continuing(property_slots, invoke_slots));
+    self
+  }
+
   #[cfg(feature = "debug")]
   pub fn with_io(mut self, io: Io) -> Self {
     self.io = Some(io);
